@@ -33,6 +33,7 @@ def run(ctx):
     c17_3(ctx)
     c17_4(ctx)
     c17_5(ctx)
+    c17_6(ctx)
 
 
 def minimal(i):
@@ -354,3 +355,33 @@ def c17_5(ctx):
         ctx.ob(R, "visit:decrement-guard", rows == want and sm is not None,
                "TreeCache::visit decrements a pair's state only while it is above SEEN_MULTIPLE (never a memo slot index)",
                found=sorted(map(str, rows ^ want))[:4] or None, where=vb.fn.sp)
+
+
+def c17_6(ctx):
+    """the hash-only encoder (ToTreeHash, used for curried-program hashes 'computed from hashes alone') has exactly the two
+    primitive hooks -- atoms through tree_hash_atom, pairs through tree_hash_pair(first, rest) -- and overrides nothing else of
+    ClvmEncoder: every other value kind (big integers, curried arguments, lists) reaches the hash through the same canonical
+    byte encodings the real allocator-backed encoder uses, so both trees hash alike.  An extra override is a second,
+    unverified hashing path (fail closed)."""
+    from .. import apnf
+    R = "C17.5"
+    fb = ctx.fb
+    TH_ = "clvm_utils::hash_encoder::TreeHasher"
+    items = sorted(x for i in fb.impls if i.get("self_ty") == TH_ and i.get("trait") == "clvm_traits::clvm_encoder::ClvmEncoder" for x in i.get("items", []) if not x.endswith("::Node"))
+    want = sorted("<%s as clvm_traits::clvm_encoder::ClvmEncoder>::%s" % (TH_, m) for m in ("encode_atom", "encode_pair"))
+    ctx.ob(R, "tree-hasher:hooks", items == want, "impl ClvmEncoder for TreeHasher defines exactly encode_atom and encode_pair", found=items)
+    for m, exp in (("encode_atom", "('Ok', ('tree_hash_atom', 'bytes'))"), ("encode_pair", "('Ok', ('tree_hash_pair', 'first', 'rest'))")):
+        b = U.body(ctx, R, "<%s as clvm_traits::clvm_encoder::ClvmEncoder>::%s" % (TH_, m))
+        if not b:
+            continue
+        rows = set()
+        for ev, ex in P.enumerate_paths(b):
+            rows.add((ex[0], str(apnf.N(P.ret_of(ev))) if ex[0] == "return" else "", len(P.conds(ev))))
+        ctx.ob(R, "tree-hasher:" + m, rows == {("return", exp, 0)}, "TreeHasher::%s = %s (single path)" % (m, exp), found=sorted(map(str, rows))[:3])
+    fs = [p for p in fb.fns if p.endswith("ToClvm<clvm_utils::hash_encoder::TreeHasher> for clvm_utils::tree_hash::TreeHash>::to_clvm")]
+    if len(fs) == 1:
+        b = Body(fb.fns[fs[0]], fb)
+        rows = {(ex[0], str(apnf.N(P.ret_of(ev))) if ex[0] == "return" else "") for ev, ex in P.enumerate_paths(b)}
+        ctx.ob(R, "tree-hasher:embedded-hash", rows == {("return", "('Ok', 'self')")}, "a TreeHash embedded in a value stands for itself")
+    else:
+        ctx.missing(R, "tree-hasher:embedded-hash", "impl ToClvm<TreeHasher> for TreeHash not found")
